@@ -88,6 +88,10 @@ def attempt(spec, args):
             names = list(extra)
         else:
             fn = load(spec['qual'])
+            if 'self' in spec['argorder'] and 'self' not in args:
+                # method whose receiver is irrelevant to the contract: an uninitialised instance
+                cls = load(spec['qual'].rsplit('.', 1)[0])
+                args['self'] = cls.__new__(cls)
             call_args = [args[a] for a in spec['argorder']]
             ns.update(args)
         # preconditions must hold for the witness, else the witness is not a counterexample
